@@ -250,6 +250,12 @@ def type_family(rep):
     calls.append(("send_json", (), {"foo": "bar"}))
     calls.append(("send_json", (object(),), {}))
     calls.append(("send_json", ({"a": 1},), {"b": 2}))
+    # values that are false in Python are JSON all the same
+    for v in (None, [], "", 0, 0.0, False, {}, (), [0], " "):
+        calls.append(("send_json", (v,), {}))
+    calls.append(("send_json", (None,), {"foo": "bar"}))
+    calls.append(("send_json", ([],), {"foo": "bar"}))
+    calls.append(("send_json", (), {}))
     calls.append(("send_ping", (b"x" * 126,), {}))
     calls.append(("send_pong", (b"x" * 200,), {}))
     res = run_calls(calls)
